@@ -4,6 +4,7 @@ package verifsim
 
 import (
 	"encoding/json"
+	"fmt"
 	"time"
 )
 
@@ -67,7 +68,32 @@ var props = map[string]*PropDef{}
 
 func register(d *PropDef) { props[d.ID] = d }
 
+// answersStable re-inspects every answer returned during the run: an answer that changed after it was
+// handed back (shared backing storage between responses) would reach the user agent with another request's
+// Location or cookie.
+func (w *World) answersStable() {
+	if w.Lean {
+		return
+	}
+	for _, c := range w.Checks {
+		if c.Resp == nil || c.Class == "ok" || c.Class == "panic" {
+			continue
+		}
+		d := c.Resp.GetDeniedResponse()
+		loc := ""
+		if l := hdrVals(d.GetHeaders(), "location"); len(l) > 0 {
+			loc = l[0]
+		}
+		sc := hdrVals(d.GetHeaders(), "set-cookie")
+		if loc != c.Location || len(sc) != len(c.SetCookie) || (len(sc) > 0 && sc[0] != c.SetCookie[0]) {
+			w.violate("C13", "answer-changed-after-it-was-returned", fmt.Sprintf("check #%d: Location/Set-Cookie of the answer read %q / %v when it was returned and %q / %v at the end of the run", c.N, c.Location, c.SetCookie, loc, sc))
+			return
+		}
+	}
+}
+
 func (w *World) result() *Result {
+	w.answersStable()
 	r := &Result{Viol: w.Viol, Faults: w.FaultsFired, Probes: w.Probes, SimSecs: time.Since(w.start).Seconds(), Steps: w.Sim.steps, Log: w.evlog}
 	r.TraceHash = hash64(w.TraceSig())
 	r.SchedHash = hash64(w.Sim.TraceString())
